@@ -337,6 +337,10 @@ def run_impl(spec, cfg, mode, stub=None):
             d = npr.randint(-8, 9, sh) / 4.0
             if dt is complex:
                 d = d + 1j * npr.randint(-8, 9, sh) / 4.0
+            if mode == 'bad':
+                # a starting field far worse than the zero field (e.g. left over from a much stronger
+                # source current): its residual exceeds |source| by the factor bad_scale
+                d = d * float(spec.get('bad_scale', 1.0))
             if mode == 'wrongdtype':
                 supplied = emg3d.Field(grid, d.astype(dt))      # no frequency: dtype from data
             else:
@@ -1035,6 +1039,8 @@ def targeted(ctx):
             for tol in (1e-4, 1e-6):
                 out.append((s0, dict(c0, sslsolver=ssl, cycle=cyc, tol=tol), 'fresh', None))
                 out.append((s0, dict(c0, sslsolver=ssl, cycle=cyc, tol=tol), 'bad', None))
+                out.append((dict(s0, bad_scale=1e4 if tol > 1e-5 else 1e7),
+                            dict(c0, sslsolver=ssl, cycle=cyc, tol=tol), 'bad', None))
     out.append((s0, dict(c0, sslsolver='bicgstab', cycle='F'), 'fresh', 'stub_precond_then_breakdown'))
     return out
 
@@ -1053,7 +1059,10 @@ def search(ctx, broken):
     cases = targeted(ctx)
     for _ in range(n):
         mode = rng.choice(['fresh'] * 4 + ['good', 'bad', 'bad', 'zero_fresh', 'zero_supplied', 'tiny_source'])
-        cases.append((rand_spec(rng, big=rng.random() < 0.2), rand_cfg(rng), mode, None))
+        sp = rand_spec(rng, big=rng.random() < 0.2)
+        if mode == 'bad' and rng.random() < 0.5:
+            sp['bad_scale'] = rng.choice([1e3, 1e6])
+        cases.append((sp, rand_cfg(rng), mode, None))
     for spec, cfg, mode, stub in cases:
         R = run_impl(spec, cfg, mode, stub=STUBS[stub])
         h = property_check(R)
